@@ -438,6 +438,23 @@ pub fn cargotoml_main(args: &[String]) {
         }
         println!("DEPS {name} {}", deps.join("|"));
     }
+    // multi-file project: the `mod` declarations of main.rs
+    {
+        let dir = base.join("multi");
+        let g = ProjectGenerator::new(&dir, "demo", true);
+        let mut modules = std::collections::HashMap::new();
+        for m in ["zeta", "alpha", "models", "utils", "db", "handlers", "beta", "config"] {
+            modules.insert(m.to_string(), format!("pub fn {m}_f() {{}}\n"));
+        }
+        match g.generate_multi("#![allow(unused)]\nfn main() {}\n", &modules) {
+            Ok(()) => {
+                let text = std::fs::read_to_string(dir.join("src/main.rs")).unwrap_or_default();
+                let mods: Vec<&str> = text.lines().filter(|l| l.trim_start().starts_with("mod ") || l.trim_start().starts_with("pub mod ")).map(|l| l.trim()).collect();
+                println!("MODS multi {}", mods.join("|"));
+            }
+            Err(e) => println!("MODS multi ERROR {e}"),
+        }
+    }
     let _ = std::fs::remove_dir_all(&base);
 }
 
